@@ -2,7 +2,7 @@
 import importlib
 
 MODULES = {
-    "C11": "harness.c11", "C12": "harness.c12",
+    "C10": "harness.c10", "C11": "harness.c11", "C12": "harness.c12",
 }
 
 
